@@ -32,6 +32,20 @@ def run(chk):
         items.append(("Subtract " + al, lambda al=al: groups["Subtract"].extend(L1m.api_add_sub(l1, True, al)[0])))
     for al in ("distinct", "zero receiver", "v=p"):
         items.append(("Negate " + al, lambda al=al: groups["Negate"].extend(L1m.api_negate(l1, al))))
+    def cofactor(state):
+        from sym import l2 as L2m, groupmode as GM, exec as X
+        import time as _t
+        h = L2m.L2(base, chk)
+        path = h.path()
+        t0 = _t.time()
+        fname = prog.find("Point).MultByCofactor")
+        chk.used(prog, fname, "group mode on top of the doubling / conversion contracts")
+        pnt = h.point(path, "P")
+        v = {"zero": lambda: h.point(path, None), "other": lambda: h.point(path, "R"), "alias": lambda: pnt}[state]()
+        paths = h.ex.call(fname, [v, pnt], path)
+        h.check_result("MultByCofactor[receiver=%s]" % state, fname, paths, v, {"P": 8}, t0, [pnt.obj] if v != pnt else [])
+    for st in ("zero", "other", "alias"):
+        items.append(("MultByCofactor " + st, lambda st=st: cofactor(st)))
     n0 = [0]
     items.append(("internal", lambda: (n0.__setitem__(0, len(chk.obs)), L1m.internal_contracts(l1))))
     items.append(("completeness", lambda: L1m.completeness(l1)))
@@ -40,6 +54,7 @@ def run(chk):
     L1m.settle(chk, by("Point.Add["), lambda: ptreplay.battery_binary("P.Add", chk.seed, lambda p, q: ref.ed_add(p, q)), "Point.Add")
     L1m.settle(chk, by("Point.Subtract["), lambda: ptreplay.battery_binary("P.Subtract", chk.seed, lambda p, q: ref.ed_add(p, ref.ed_neg(q))), "Point.Subtract")
     L1m.settle(chk, by("Point.Negate["), lambda: ptreplay.battery_unary("P.Negate", chk.seed, lambda p: ref.ed_neg(p)), "Point.Negate")
+    L1m.settle(chk, by("MultByCofactor["), lambda: ptreplay.battery_unary("P.MultByCofactor", chk.seed, lambda p: ref.ed_mul(8, p)), "Point.MultByCofactor")
     internal = [o for o in chk.obs if o.mode.startswith("ring mode") and not o.ok() and not o.name.startswith("Point.")]
 
     def internal_battery():
